@@ -142,6 +142,16 @@ func init() {
 					g.emit("bwfirstdiff %d %s %s %d %d", n, showBytes(a), showBytes(b), from, end)
 				}
 			}
+			for _, l := range []int{255, 256, 257, 1000} {
+				a := g.bytes(l, 3)
+				b := append([]byte(nil), a...)
+				b[l-1] ^= 1
+				g.emit("bwfromstr %d %s", n, showBytes(a))
+				g.emit("bwrt %d %s", n, showBytes(a))
+				g.emit("bwget %d %s %d", n, showBytes(a), 8*l/n-1)
+				g.emit("bwfirstdiff %d %s %s 0 -1", n, showBytes(a), showBytes(b))
+				g.emit("bwfirstdiff %d %s %s %d %d", n, showBytes(a), showBytes(b), 8*l/n-2, 8*l/n+5)
+			}
 			for rep := 0; rep < g.n(10, 60); rep++ {
 				k := g.intn(4)
 				l := make([][]byte, k)
@@ -233,6 +243,21 @@ func init() {
 				}
 			}
 		}
+		for _, l := range []int{255, 256, 257, 1000} {
+			s := g.bytes(l, 3)
+			s2 := append([]byte(nil), s...)
+			s2[l-1] ^= 0x04
+			for _, to := range []int{8 * l, 8*l - 3, 8*l - 8, 2048, 2047} {
+				if to > 8*l {
+					continue
+				}
+				g.emit("bsnew %s 0 %d", showBytes(s), to)
+				g.emit("bscmp %s 0 %d %s 8 %d", showBytes(s), to, showBytes(s2), to)
+				g.emit("bscmp %s 0 %d %s 0 %d", showBytes(s), to, showBytes(s2), 8*l)
+				g.emit("bscmpupto %s %s 0 %d", showBytes(s2), showBytes(s), to)
+				g.emit("bscmpupto %s %s 16 %d", showBytes(s2[2:]), showBytes(s), to)
+			}
+		}
 		g.emit("bsnew x616263 5 12")
 		g.emit("bsnew x 0 0")
 		g.emit("bscmp x 0 0 x00 0 0")
@@ -280,6 +305,23 @@ func init() {
 			}
 			g.emit("fdb %s", showBytesList(keys))
 		}
+		// many keys, long keys (the naive distinct-count specification is not evaluated beyond 60 keys)
+		for rep := 0; rep < g.n(2, 10); rep++ {
+			keys := g.sortedKeys(150+g.intn(200), rep%4)
+			long := append(bytes.Repeat([]byte{0xab}, 300), g.bytes(3, 3)...)
+			keys = append(keys, long, append(append([]byte(nil), long...), 0), append(append([]byte(nil), long...), 0, 1))
+			sort.Slice(keys, func(i, j int) bool { return bytes.Compare(keys[i], keys[j]) < 0 })
+			uniq := keys[:1]
+			for _, k := range keys[1:] {
+				if !bytes.Equal(k, uniq[len(uniq)-1]) {
+					uniq = append(uniq, k)
+				}
+			}
+			ks := showBytesList(uniq)
+			g.emit("fdb %s", ks)
+			g.emit("countprefixes %s 0 %d 40", ks, len(uniq))
+			g.emit("countprefixes %s %d %d 9", ks, len(uniq)/3, len(uniq)-1)
+		}
 		g.emit("fdb x61,x6100")
 		g.emit("fdb x6162,x6163,x62")
 	}
@@ -300,6 +342,45 @@ func init() {
 				if ms >= 1 {
 					g.emit("shard %s %d", ks, ms)
 				}
+			}
+		}
+		// maximal fan-out: a key equal to the common prefix followed by (nearly) every next byte
+		for rep := 0; rep < g.n(3, 12); rep++ {
+			pfx := g.bytes(g.intn(3), 1)
+			keys := [][]byte{}
+			if rep%3 != 2 {
+				keys = append(keys, append([]byte(nil), pfx...))
+			}
+			skip := -1
+			if rep%2 == 1 {
+				skip = g.intn(256)
+			}
+			for c := 0; c < 256; c++ {
+				if c == skip {
+					continue
+				}
+				k := append(append([]byte(nil), pfx...), byte(c))
+				keys = append(keys, k)
+				if g.intn(40) == 0 {
+					keys = append(keys, append(append([]byte(nil), k...), byte(g.intn(256))))
+				}
+			}
+			if len(pfx) > 0 && pfx[len(pfx)-1] < 0xff {
+				nxt := append([]byte(nil), pfx...)
+				nxt[len(nxt)-1]++
+				keys = append(keys, nxt)
+			}
+			sort.Slice(keys, func(i, j int) bool { return bytes.Compare(keys[i], keys[j]) < 0 })
+			ks := showBytesList(keys)
+			for _, ms := range []int{1, 2, 3, 16, 255, 256, 257, 300} {
+				g.emit("shard %s %d", ks, ms)
+			}
+		}
+		for rep := 0; rep < g.n(3, 20); rep++ {
+			keys := g.sortedKeys(200+g.intn(400), rep%4)
+			ks := showBytesList(keys)
+			for _, ms := range []int{1, 7, 64, 256, 257} {
+				g.emit("shard %s %d", ks, ms)
 			}
 		}
 	}
